@@ -68,11 +68,11 @@ func init() {
 		Run: func(c *Ctx) {
 			s := newSeqRT(c)
 			c.guard("SEQ.SYNC", s.ruleSync)
-			c.guard("SEQ.CHAIN", s.ruleChain)
 			// "out of exactly the MoveNext or Send call whose step executed the panicking statement": each
 			// consumer call runs exactly the steps the protocol assigns to it (a Send that primes twice runs
-			// the panicking step one call early)
-			c.guard("SEQ.GEN", s.ruleGenHist)
+			// the panicking step one call early); with the generator code panicking at any step: the panic comes
+			// out of that call and the value delivered before is untouched (SEQ.CHAIN)
+			c.guard("SEQ.GEN", s.ruleGenHistPanics)
 			c.guard("SEQ.TAKE", s.ruleSuspend)
 			c.guard("SEQ.START", func() { s.ruleStart() })
 			c.guard("SEQ.DELAY", s.ruleDelay)
